@@ -5,8 +5,8 @@ from lib.core import existing_modules
 LEAN_MODULES = existing_modules(["Sonic.Props.C05"]) + ["Sonic.Spec.Json"]
 REQUIRED_THEOREMS = ["Sonic.Props.C05." + n for n in ["C05_escmap", "C05_hex4", "C05_utf8", "C05_surrogates", "C05_block_idioms",
                                                          "C05_decode_at", "C05_decode", "C05_width_independent", "C05_prefix_preserved"]]
-CONFIGS = [("avx2", "prod"), ("sse", "prod"), ("avx2", "san"), ("sse", "san")]
-CONFIGS_THOROUGH = CONFIGS + [("dyn", "prod")]
+CONFIGS = [("avx2", "prod"), ("sse", "prod"), ("avx2", "san"), ("sse", "san"), ("dyn", "prod")]
+CONFIGS_THOROUGH = CONFIGS + [("dyn", "san")]
 RULE = ("string literals (bytes after the opening quote): each of the 8 simple escapes, \\u of every UTF-8 length class, valid surrogate "
         "pairs, every malformed kind (unknown escape, bad hex digit at each of the 4 positions, lone low / lone high / high+non-low / "
         "high+non-\\u, truncated escapes), every control byte and every raw byte 0..255 placed at every offset 0..2W inside literals of "
